@@ -7,7 +7,8 @@ use crate::sut::{self, Cfg, WireReq};
 use refmodel::sign::{build, Carrier, Plan};
 use serde_json::json;
 
-const VALS: [&[u8]; 12] = [b"v", b" v", b"v ", b"a  b", b"a b", b"", b"a,b", b"\xe9", b"\"a  b\"", b"a\tb", b"\tv\t", b"a\t\tb"];
+const VALS: [&[u8]; 14] =
+    [b"v", b" v", b"v ", b"a  b", b"a b", b"", b"a,b", b"\xe9", b"\"a  b\"", b"a\tb", b"\tv\t", b"a\t\tb", b"voil\xc3\xa0", b"\x85v\xa0 "];
 
 fn value_lists() -> Vec<Vec<&'static [u8]>> {
     let mut out: Vec<Vec<&'static [u8]>> = vec![vec![]];
@@ -296,6 +297,82 @@ pub fn run(ctx: &Ctx) -> Report {
         }
     });
 
+    // (4) scale: a repeated signed header among many header lines (grouping / sorting code paths change with size)
+    let mut scale: Vec<(String, WireReq, bool)> = Vec::new(); // (label, request, must be accepted)
+    for total_lines in [12usize, 20, 33, 34, 40, 64, 100] {
+        for arrangement in 0..4 {
+            let mut plan = e2e::base_plan(Carrier::Header);
+            plan.headers.clear();
+            let fillers = total_lines.saturating_sub(6);
+            let mut lines: Vec<(String, Vec<u8>)> = Vec::new();
+            lines.push(("Host".into(), b"example.amazonaws.com".to_vec()));
+            lines.push(("X-Rep".into(), b"one".to_vec()));
+            lines.push(("X-Rep".into(), b"two".to_vec()));
+            lines.push(("X-Rep".into(), b"three".to_vec()));
+            for f in 0..fillers {
+                lines.push((format!("X-Fill-{:03}", (f * 37) % 1000), format!("f{}", f).into_bytes()));
+            }
+            match arrangement {
+                0 => {}
+                1 => lines.reverse(),
+                2 => lines.rotate_left(total_lines / 3),
+                _ => {
+                    // signed values spread out between fillers
+                    let reps: Vec<(String, Vec<u8>)> = lines.iter().filter(|l| l.0 == "X-Rep").cloned().collect();
+                    let mut rest: Vec<(String, Vec<u8>)> = lines.iter().filter(|l| l.0 != "X-Rep").cloned().collect();
+                    let step = (rest.len() / 4).max(1);
+                    for (k, r) in reps.into_iter().enumerate() {
+                        rest.insert(((k + 1) * step).min(rest.len()), r);
+                    }
+                    lines = rest;
+                }
+            }
+            plan.headers = lines;
+            plan.signed = vec!["host".into(), "x-amz-date".into(), "x-rep".into()];
+            let built = build(&plan);
+            let w = WireReq::from_wire(&built.wire);
+            scale.push((format!("{} lines, arrangement {}", total_lines, arrangement), w.clone(), true));
+            // swap two values of the signed header after signing: must be refused
+            let idx: Vec<usize> = w.headers.iter().enumerate().filter(|(_, h)| h.0 == "X-Rep").map(|(i, _)| i).collect();
+            let mut sw = w.clone();
+            let t = sw.headers[idx[0]].1.clone();
+            sw.headers[idx[0]].1 = sw.headers[idx[2]].1.clone();
+            sw.headers[idx[2]].1 = t;
+            scale.push((format!("{} lines, arrangement {}, signed values swapped", total_lines, arrangement), sw, false));
+            // drop half of the unsigned fillers after signing: outcome unchanged
+            let mut fewer = w.clone();
+            let mut k = 0;
+            fewer.headers.retain(|h| {
+                if h.0.starts_with("X-Fill-") {
+                    k += 1;
+                    k % 2 == 0
+                } else {
+                    true
+                }
+            });
+            scale.push((format!("{} lines, arrangement {}, half of the unsigned headers removed", total_lines, arrangement), fewer, true));
+        }
+    }
+    let n_scale = scale.len() as u64 * 8;
+    let st_s = par_sweep(n_scale, |i, st| {
+        let (label, w, must_accept) = &scale[(i / 8) as usize];
+        let c = Case { wire: w.clone(), cfg: cfg.clone(), prov: ProvSpec::standard() };
+        let before = st.violations.len();
+        let j = e2e::judge_into(n_bases * 1000 + 100_000 + i, &c, st);
+        if i % 8 == 0 {
+            st.nontrivial(&(&c.wire, "scale"));
+        }
+        if st.violations.len() > before {
+            if let Some(v) = st.violations.last_mut() {
+                v.what = format!("scale:{}:{}", label, v.what);
+            }
+        }
+        if j.reference.accepted() != *must_accept {
+            machinery_error(&format!("C11 scale case {:?}: reference says {:?}", label, j.reference.error));
+        }
+    });
+    let st = st.merge(st_s);
+
     // (3b) the same differential on refused bases
     let refused = refused_bases();
     let n_ref = refused.len() as u64;
@@ -332,7 +409,7 @@ pub fn run(ctx: &Ctx) -> Report {
     Report {
         stats: st,
         rule: format!(
-            "{} base requests: x-a with every list of 0..2 values over 12 values (spaces outside/inside, empty, comma, 0xE9, quoted, inner/outer/double tabs) x x-b (none, one, two values) x content-type (absent/present) x every signed subset of {{x-a, x-b, content-type, x-amz-date}} x 3 arrival orders x 3 name-case styles, header carrier and (1 in 5) query carrier; (1) accepted, canonical request bytes equal to the reference's; (2) on every {} base, every single edit of a signed header (insertion of 4 bytes at every position, deletion and 3 substitutions at every position, value added/removed, two values swapped, value moved to another signed name) with the old signature: Ok iff the reference header block is unchanged; (3) every insertion position of an unsigned header, removal/modification/extra value of every unsigned one, every rotation of the header groups: identical outcome; the same insertions on {} refused bases. states = distinct reference canonical requests",
+            "{} base requests: x-a with every list of 0..2 values over 14 values (spaces outside/inside, empty, comma, 0xE9, quoted, inner/outer/double tabs, values beginning/ending in bytes 0x85 / 0xA0) x x-b (none, one, two values) x content-type (absent/present) x every signed subset of {{x-a, x-b, content-type, x-amz-date}} x 3 arrival orders x 3 name-case styles, header carrier and (1 in 5) query carrier; (1) accepted, canonical request bytes equal to the reference's; (2) on every {} base, every single edit of a signed header (insertion of 4 bytes at every position, deletion and 3 substitutions at every position, value added/removed, two values swapped, value moved to another signed name) with the old signature: Ok iff the reference header block is unchanged; (3) every insertion position of an unsigned header, removal/modification/extra value of every unsigned one, every rotation of the header groups: identical outcome; the same insertions on {} refused bases; (4) a thrice-repeated signed header among 12..100 header lines in 4 arrangements: accepted, refused once two signed values are swapped, unaffected by removing unsigned lines (each 8 times). states = distinct reference canonical requests",
             n_bases, if edit_stride == 1 { "" } else { "third" }, n_ref
         ),
         bounds: json!({"bases": n_bases, "edit_stride": edit_stride}),
